@@ -1,9 +1,11 @@
 /- path_processor.go `untokenizePath` as translated on this run IS the model's -/
 import Restful.Lemmas.TieImpBase
+import Restful.Lemmas.TieImpBridge
 namespace Restful
 namespace TieImp
 namespace T2
 open Imp
+set_option linter.unusedSimpArgs false
 
 theorem untok_loop (parts : List Str) (f : Int → Str → Option (ForInStep Str))
     (hf : ∀ (p : Int) (s : Str), f p s = (do
@@ -33,16 +35,28 @@ theorem untok_loop (parts : List Str) (f : Int → Str → Option (ForInStep Str
       rw [ih (k + 1) (by omega), hd, hd']
       simp only [untokenize, Str.join, List.intercalate_cons_cons, List.append_assoc]
 
+/-- two general ways to get there: the buffer loop over `parts[offset:]` (`untok_loop`, body abstract), or
+    the closed form `strings.Join(parts[offset:], "/")` behind a guard that returns "" when `offset ≥ len(parts)`
+    (written either way round) -/
 theorem untokenize_path (X : ImpGen.Ext) (offset : Nat) (parts : List Str) :
     ImpGen.untokenizePath X ((offset : Nat) : Int) parts = some (untokenize (parts.drop offset)) := by
   unfold ImpGen.untokenizePath
-  simp only [String.reduceToList, range_nat_len]
-  by_cases h : offset ≤ parts.length
-  · rw [untok_loop parts _ (fun _ _ => rfl) _ _ (by omega)]
-    simp
-  · have h1 : parts.length - offset = 0 := by omega
-    have h2 : parts.drop offset = [] := by simp; omega
-    simp [h1, h2, untokenize, Str.join]
+  first
+  | (simp only [String.reduceToList, range_nat_len]
+     by_cases h : offset ≤ parts.length
+     · rw [untok_loop parts _ (fun _ _ => rfl) _ _ (by omega)]
+       simp
+     · have h1 : parts.length - offset = 0 := by omega
+       have h2 : parts.drop offset = [] := by simp; omega
+       simp [h1, h2, untokenize, Str.join])
+  | (by_cases h : offset < parts.length
+     · have h1 : ((offset : Int) < len parts) = True := eq_true (by simp only [len]; omega)
+       have h2 : (len parts ≤ (offset : Int)) = False := eq_false (by simp only [len]; omega)
+       simp [h1, h2, sliceFrom_nat parts offset (by omega), untokenize]
+     · have h1 : ((offset : Int) < len parts) = False := eq_false (by simp only [len]; omega)
+       have h2 : (len parts ≤ (offset : Int)) = True := eq_true (by simp only [len]; omega)
+       have h3 : parts.drop offset = [] := by simp; omega
+       simp [h1, h2, h3, untokenize, Str.join])
 
 end T2
 end TieImp
